@@ -80,3 +80,28 @@ func RuntimeCatalogue() []*Request {
 	out = append(out, KindsRequest(), SiblingRequest(), DoubleSlashRequest(), NoSlashRequest())
 	return out
 }
+
+// RawRequest: server-only package (the Go client does not compile with repeated query fields)
+// with repeated, required and enum/bytes-typed query parameters.
+func RawRequest() *Request {
+	id := "rtraw"
+	pkg := "rtraw.v1"
+	f := &File{Enums: []*Enum{E("Color", "COLOR_UNSPECIFIED", "COLOR_RED")}}
+	f.Messages = []*Message{
+		M("Resp", F("ok", 1, "bool")),
+		M("ListReq", F("tenant", 1, "string"), F("tags", 2, "string", Rep(), Query("tag", false)), F("ids", 3, "int64", Rep(), Query("id", false)),
+			F("limit", 4, "uint32", Query("limit", true)), F("flag", 5, "bool", Query("", false)), F("color", 6, "", EnumT(pkg+".Color"), Query("color", false))),
+		M("UpdReq", F("tenant", 1, "string"), F("n", 2, "sint32"), F("mode", 3, "string", Query("mode", false)), F("note", 4, "string"), F("count", 5, "int32"),
+			F("raw", 6, "bytes", Query("raw", false))),
+	}
+	f.Services = []*Service{Svc("Raw", "/raw",
+		RPC("List", pkg+".ListReq", pkg+".Resp", "GET", "/t/{tenant}/items"),
+		RPC("Drop", pkg+".ListReq", pkg+".Resp", "DELETE", "/t/{tenant}/items"),
+		RPC("Upd", pkg+".UpdReq", pkg+".Resp", "PUT", "/t/{tenant}/n/{n}"),
+		RPC("Patch", pkg+".UpdReq", pkg+".Resp", "PATCH", "/t/{tenant}/n/{n}"),
+		RPC("Post", pkg+".UpdReq", pkg+".Resp", "POST", "/t/{tenant}/n/{n}"),
+	)}
+	r := OneFile(id, pkg, f)
+	r.Tags = []string{"runtime", "server-only"}
+	return r
+}
